@@ -23,11 +23,17 @@
   * `C05_format_choice*`, `C05_cli_format_supported`, `C05_cli_unknown_format`, `C05_alias`
                                   which format is written
 
+  * `C05_json_string_escape_spec`, `C05_json_parse_encode`, `C05_json_encode_decode`,
+    `C05_json_stream_roundtrip`, `C05_json_codec_ok`, `C05_json_lines_text`,
+    `C05_json_big_int_not_exact`, `C05_json_big_int_counterexample`, `C05_json_fuel_adequate`
+                                  JSON with the CONCRETE codec of Bkl/Json.lean (last section)
+
   Helper lemmas (and the definitions `joinWith`, `CodecOK`, `blankLine`, `streamBody`,
   `toyCodec`, `finalFormat`, `cliFinish`, `extOfChars`, `lastCompChars`) are in
   BklProofs/Lemmas/Stream.lean.
 -/
 import BklProofs.Lemmas.Stream
+import BklProofs.Lemmas.Json
 namespace Bkl
 
 /-! ## the framing lemma -/
@@ -325,5 +331,260 @@ theorem C05_alias :
   refine ⟨rfl, ?_, by decide, by decide⟩
   intro f
   simp [supportedExts]
+
+/-! ## JSON: the concrete codec (Bkl/Json.lean) — no codec hypothesis left
+
+  `jsonEncode` / `jsonEncodeStream` are the compact writer of json.go (encoding/json with
+  `SetEscapeHTML(false)`), `jsonLoadStream` is json.go's `Decoder` loop (`UseNumber`) followed by
+  `normalize`.  The only parameters left are the two float functions `jf` (the literal written for
+  the float with a given `%v` text) and `fol` (the `%v` text of the float a literal denotes), with
+  the hypothesis `js_FloatOK jf fol r` at every float text `r` of the value: the literal is a JSON
+  number token with a fraction or an exponent, `fol (jf r) = r`, and `r ≠ ""`.
+  `js_NumsOK jf fol v`: every integer inside `v` fits int64 and every float text meets
+  `js_FloatOK`; `js_Repr jf fol v := v.WF ∧ js_NumsOK jf fol v`.
+  (Definitions and helper lemmas: BklProofs/Lemmas/Json.lean.) -/
+
+/-- **String escaping** — the table of encoding/json's `appendString` (escapeHTML off), clause by
+    clause, and `unescape ∘ escape = id` for every string (every code point). -/
+theorem C05_json_string_escape_spec :
+    jsonEscapeChar '"' = ['\\', '"'] ∧
+    jsonEscapeChar '\\' = ['\\', '\\'] ∧
+    jsonEscapeChar '\n' = ['\\', 'n'] ∧
+    jsonEscapeChar '\r' = ['\\', 'r'] ∧
+    jsonEscapeChar '\t' = ['\\', 't'] ∧
+    jsonEscapeChar '\x08' = ['\\', 'b'] ∧
+    jsonEscapeChar '\x0c' = ['\\', 'f'] ∧
+    (∀ c : Char, c.toNat < 32 → c ≠ '\n' → c ≠ '\r' → c ≠ '\t' → c ≠ '\x08' → c ≠ '\x0c' →
+      jsonEscapeChar c =
+        ['\\', 'u', '0', '0', jsonHexDigit (c.toNat / 16), jsonHexDigit (c.toNat % 16)]) ∧
+    (List.range 16).map jsonHexDigit =
+      ['0', '1', '2', '3', '4', '5', '6', '7', '8', '9', 'a', 'b', 'c', 'd', 'e', 'f'] ∧
+    jsonEscapeChar '\u2028' = ['\\', 'u', '2', '0', '2', '8'] ∧
+    jsonEscapeChar '\u2029' = ['\\', 'u', '2', '0', '2', '9'] ∧
+    (∀ c : Char, 32 ≤ c.toNat → c ≠ '"' → c ≠ '\\' → c ≠ '\u2028' → c ≠ '\u2029' →
+      jsonEscapeChar c = [c]) ∧
+    (∀ (c : Char) (cs : List Char), jsonEscape (c :: cs) = jsonEscapeChar c ++ jsonEscape cs) ∧
+    jsonEscape [] = [] ∧
+    (∀ cs : List Char, jsonUnescape (jsonEscape cs) = some cs) ∧
+    (∀ (cs rest : List Char), jsonParseStr (jsonEscape cs ++ '"' :: rest) = some (cs, rest)) ∧
+    (∀ s : String, jsonUnescapeS (jsonEscapeS s) = some s) := by
+  refine ⟨by decide, by decide, by decide, by decide, by decide, by decide, by decide, ?_,
+    by decide, by decide, by decide, ?_, ?_, rfl, js_unescape_escape, js_parseStr_escape, ?_⟩
+  · intro c h e1 e2 e3 e4 e5; exact js_escapeChar_ctl h e1 e2 e3 e4 e5
+  · intro c h h1 h2 h4 h5; exact js_escapeChar_plain h1 h2 (by omega) h4 h5
+  · intro c cs; simp [jsonEscape]
+  · intro s
+    simp [jsonUnescapeS, jsonEscapeS, js_unescape_escape]
+
+/-- non-vacuity of the clauses with hypotheses: U+0001 and U+001F are `\u00XX`-escaped, DEL,
+    `<`, `>`, `&`, and non-ASCII code points are copied -/
+example : jsonEscapeChar '\x01' = ['\\', 'u', '0', '0', '0', '1'] ∧
+    jsonEscapeChar '\x1f' = ['\\', 'u', '0', '0', '1', 'f'] ∧
+    jsonEscapeChar '\x7f' = ['\x7f'] ∧ jsonEscapeChar '<' = ['<'] ∧ jsonEscapeChar '>' = ['>'] ∧
+    jsonEscapeChar '&' = ['&'] ∧ jsonEscapeChar 'é' = ['é'] ∧ jsonEscapeChar '😀' = ['😀'] := by
+  decide
+
+/-- the decoder's string grammar is wider than what the encoder writes: `\/`, upper-case hex,
+    `\uXXXX` for any BMP code point, surrogate pairs; an unpaired surrogate becomes U+FFFD (as in
+    Go); a raw control character, an unknown escape or a missing quote is an error -/
+example : jsonParseStr ['\\', '/', '\\', 'u', '0', '0', 'E', '9', '\\', 'u', 'd', '8', '3', 'd',
+      '\\', 'u', 'D', 'E', '0', '0', '\\', 'u', 'd', '8', '0', '0', 'x', '"', 'r']
+    = some (['/', 'é', '😀', '\ufffd', 'x'], ['r']) := by decide
+example : jsonParseStr ['a', '\n', '"'] = none ∧ jsonParseStr ['\\', 'x', '"'] = none ∧
+    jsonParseStr ['a', 'b'] = none ∧ jsonParseStr ['\\', 'u', '1', '2', 'g', '4', '"'] = none := by
+  decide
+
+/-- **The parser on the writer's output**: the text of `v`, followed by anything that does not go
+    on like a number, parses (with any fuel ≥ the text's length) to the raw form of `v` — the
+    literal text of every number kept — and leaves exactly what followed; `normalize` then turns
+    the raw form of a well-formed `v` into `v`. -/
+theorem C05_json_parse_encode (jf fol : String → String) (v : Val) (hn : js_NumsOK jf fol v)
+    (fuel : Nat) (hf : (jsonEncodeChars jf v).length ≤ fuel) (rest : List Char)
+    (hs : ∀ c t, rest = c :: t → js_numChar c = false) :
+    jsonParseValue fol fuel (jsonEncodeChars jf v ++ rest) = .ok (js_rawOf jf fol v, rest) ∧
+    (v.WF → normalize (js_rawOf jf fol v) = .ok v) :=
+  ⟨js_parse_enc jf fol v fuel rest hn hf hs, fun hw => js_normalize_raw jf fol v hw hn⟩
+
+example : jsonParseValue js_demoFol 200 (jsonEncodeChars js_demoJf js_demoVal ++ [',', '1'])
+    = .ok (js_rawOf js_demoJf js_demoFol js_demoVal, [',', '1']) :=
+  (C05_json_parse_encode js_demoJf js_demoFol js_demoVal js_demoVal_repr.2 200 (by decide) _
+    (by intro c t e; cases e; decide)).1
+
+/-- **C05_json_encode_decode**: for every well-formed value whose integers fit int64 and whose
+    float texts meet the float hypothesis — ALL strings (every code point), nested lists, maps —
+    loading the compact text gives the value back (with or without the newline the stream
+    writer adds). -/
+theorem C05_json_encode_decode (jf fol : String → String) (v : Val) (hw : v.WF)
+    (hn : js_NumsOK jf fol v) :
+    jsonLoad fol (jsonEncode jf v) = .ok v ∧ jsonLoad fol (jsonEncodeStream jf [v]) = .ok v :=
+  ⟨js_load_encode jf fol v ⟨hw, hn⟩, js_load_encodeStream_one jf fol v ⟨hw, hn⟩⟩
+
+/-- non-vacuity: the value of the labelled test (all escape classes, five floats, nesting) meets
+    the hypotheses for the concrete float functions `js_demoJf` / `js_demoFol` -/
+example : js_demoVal.WF ∧ js_NumsOK js_demoJf js_demoFol js_demoVal := js_demoVal_repr
+example : js_FloatOK js_demoJf js_demoFol "1e-07" ∧ js_demoJf "1e-07" = "1e-7" ∧
+    js_FloatOK js_demoJf js_demoFol "2" ∧ js_demoJf "2" = "2.0" :=
+  ⟨js_demo_floatOK _ (by simp), by decide, js_demo_floatOK _ (by simp), by decide⟩
+
+/-- **C05_json_stream_roundtrip**: what `jsonMarshalStream` writes for any list of such values
+    (also the empty list; null documents too) is read back by `jsonUnmarshalStream` + `normalize`
+    as the same list. -/
+theorem C05_json_stream_roundtrip (jf fol : String → String) (vs : List Val)
+    (h : ∀ v ∈ vs, v.WF ∧ js_NumsOK jf fol v) :
+    jsonLoadStream fol (jsonEncodeStream jf vs) = .ok vs :=
+  js_loadStream_encodeStream jf fol vs h
+
+example : jsonLoadStream js_demoFol (jsonEncodeStream js_demoJf [js_demoVal, .null, .int (-5)])
+    = .ok [js_demoVal, .null, .int (-5)] :=
+  C05_json_stream_roundtrip _ _ _ (by
+    intro v hv
+    simp only [List.mem_cons, List.mem_nil_iff, or_false] at hv
+    rcases hv with rfl | rfl | rfl
+    · exact js_demoVal_repr
+    · exact ⟨by decide, by simp [js_NumsOK]⟩
+    · exact ⟨by decide, by simp only [js_NumsOK]; decide⟩)
+example : jsonLoadStream js_demoFol (jsonEncodeStream js_demoJf []) = .ok [] :=
+  C05_json_stream_roundtrip _ _ [] (by simp)
+
+/-- The int64 hypothesis is needed: an integer outside int64 is written in full, but
+    `json.Number.Int64` fails on it and `normalize` falls back to `Float64` — it comes back as
+    the float `fol` makes of its literal (or as an error when that is out of range). -/
+theorem C05_json_big_int_not_exact (jf fol : String → String) (i : Int)
+    (h : ¬ (int64Min ≤ i ∧ i ≤ int64Max)) :
+    jsonLoad fol (jsonEncode jf (.int i)) =
+      (if (fol (toString i)).isEmpty then .error .other else .ok (.flt (fol (toString i)))) ∧
+    jsonLoad fol (jsonEncode jf (.int i)) ≠ .ok (.int i) := by
+  have := js_load_big_int jf fol i h
+  refine ⟨this, ?_⟩
+  rw [this]
+  split
+  · intro e; cases e
+  · intro e; injection e with e; cases e
+
+theorem C05_json_big_int_counterexample :
+    jsonEncode js_demoJf (.int 9223372036854775808) = "9223372036854775808" ∧
+    jsonLoad js_demoFol (jsonEncode js_demoJf (.int 9223372036854775808))
+      = .ok (.flt "9223372036854775808") := by
+  refine ⟨by decide, ?_⟩
+  rw [(C05_json_big_int_not_exact js_demoJf js_demoFol 9223372036854775808 (by decide)).1]
+  decide
+
+/-- **C05_json_codec_ok**: the concrete `jsonCodec jf fol : Codec` (one value = one line) meets
+    the hypothesis of `json_rt` / `C05_json_stream_rt` on every representable value, so the
+    lines-level stream theorem holds for JSON with no codec hypothesis left. -/
+theorem C05_json_codec_ok (jf fol : String → String) :
+    (∀ v, js_Repr jf fol v →
+      ∃ l, (jsonCodec jf fol).enc v = .ok [l] ∧ (jsonCodec jf fol).dec [l] = .ok v) ∧
+    (∀ vs : List Val, (∀ v ∈ vs, js_Repr jf fol v) →
+      (do let t ← jsonMarshalStream (jsonCodec jf fol) vs
+          jsonUnmarshalLines (jsonCodec jf fol) t) = .ok vs) :=
+  ⟨js_codec_ok jf fol,
+    fun vs h => C05_json_stream_rt (jsonCodec jf fol) (js_Repr jf fol) (js_codec_ok jf fol) vs h⟩
+
+example : (do let t ← jsonMarshalStream (jsonCodec js_demoJf js_demoFol) [js_demoVal, js_demoVal]
+              jsonUnmarshalLines (jsonCodec js_demoJf js_demoFol) t)
+    = .ok [js_demoVal, js_demoVal] :=
+  (C05_json_codec_ok js_demoJf js_demoFol).2 _ (by
+    intro v hv
+    simp only [List.mem_cons, List.mem_nil_iff, or_false] at hv
+    rcases hv with rfl | rfl <;> exact js_demoVal_repr)
+
+/-- The lines of the `Codec` view are the lines of the text: the codec writes one line per value,
+    that line contains no newline (newlines inside strings are escaped), and the stream text is
+    these lines, each followed by a newline. -/
+theorem C05_json_lines_text (jf fol : String → String) (vs : List Val)
+    (h : ∀ v ∈ vs, js_NumsOK jf fol v) :
+    jsonMarshalStream (jsonCodec jf fol) vs = .ok (vs.map (jsonEncode jf)) ∧
+    (∀ v ∈ vs, '\n' ∉ (jsonEncode jf v).toList) ∧
+    (jsonEncodeStream jf vs).toList =
+      (vs.map fun v => (jsonEncode jf v).toList ++ ['\n']).flatten := by
+  refine ⟨?_, ?_, ?_⟩
+  · rw [jsonMarshalStream]
+    have : vs.mapM (jsonCodec jf fol).enc = .ok (vs.map fun v => [jsonEncode jf v]) := by
+      clear h
+      induction vs with
+      | nil => rfl
+      | cons v vs ih => rw [List.mapM_cons, ih]; rfl
+    rw [this]
+    simp only [s_bind_ok, s_pure]
+    congr 1
+    clear h this
+    induction vs with
+    | nil => rfl
+    | cons v vs ih => simp [ih]
+  · intro v hv
+    rw [jsonEncode, String.toList_ofList]
+    exact js_enc_no_nl jf fol v (h v hv)
+  · rw [jsonEncodeStream, String.toList_ofList, js_stream_eq_lines]
+    simp [jsonEncode, String.toList_ofList]
+
+example : jsonMarshalStream (jsonCodec js_demoJf js_demoFol) [js_demoVal, .null]
+    = .ok [js_demoText, "null"] := by
+  rw [(C05_json_lines_text js_demoJf js_demoFol [js_demoVal, .null] (by
+    intro v hv
+    simp only [List.mem_cons, List.mem_nil_iff, or_false] at hv
+    rcases hv with rfl | rfl
+    · exact js_demoVal_repr.2
+    · simp [js_NumsOK])).1]
+  decide
+
+/-! ### labelled tests -/
+
+/-- the exact text Go's encoder was observed to write for this value -/
+example : jsonEncode js_demoJf js_demoVal = js_demoText := by decide
+example : js_demoText =
+    "{\"\":\"x\",\"k\\n\":[1,1.5,1e+21,1e-7,0.00001,true,null,{},[]],\"s\":\"a\\\"b\\\\c\\n\\r\\t\\b\\f\\u0001\\u001f<>&\\u2028\\u2029é日😀\"}" := rfl
+/-- … and it reads back -/
+example : jsonLoad js_demoFol js_demoText = .ok js_demoVal := by
+  rw [← show jsonEncode js_demoJf js_demoVal = js_demoText from by decide]
+  exact (C05_json_encode_decode _ _ _ js_demoVal_repr.1 js_demoVal_repr.2).1
+example : jsonEncode js_demoJf (.list [.int 0, .int (-12), .flt "2", .str "", .map [("a", .list [])]])
+    = "[0,-12,2.0,\"\",{\"a\":[]}]" := by decide
+example : jsonEncodeStream js_demoJf [.map [("a", .int 1)], .null, .list []]
+    = "{\"a\":1}\nnull\n[]\n" := by decide
+
+/-- decoder, beyond what the writer produces: whitespace between tokens, a document stream
+    separated by whitespace only, `\\/`; the parser keeps duplicate keys in document order … -/
+example : jsonDecodeDocs js_demoFol 40
+    ['{', '"', 'a', '"', ':', ' ', '[', '1', ',', ' ', '2', '.', '0', ']', ' ', ',', ' ', '"', 'a',
+      '"', ' ', ':', '{', '"', 'b', '"', ':', '"', '\\', '/', '"', '}', '}', '\n', ' ', '7', ' ']
+    = .ok [.map [("a", .list [.jnum "1" "1", .jnum "2.0" "2"]), ("a", .map [("b", .str "/")])],
+        .jnum "7" "7"] := rfl
+/-- … and `normalize` lets the later one win (Go map assignment); an int64 literal becomes an int -/
+example : normalizeList
+      [Raw.map [("a", .list [.jnum "1" "1", .jnum "2.0" "2"]), ("a", .map [("b", .str "/")])],
+        .jnum "7" "7"]
+    = .ok [.map [("a", .map [("b", .str "/")])], .int 7] := by
+  have h1 : parseInt64 "1" = some 1 := parseInt64_toString 1 (by decide) (by decide)
+  have h7 : parseInt64 "7" = some 7 := parseInt64_toString 7 (by decide) (by decide)
+  have h2 : parseInt64 "2.0" = none :=
+    parseInt64_none_of_bad_char "2.0" '.' (by decide) (by decide) (by decide) (by decide)
+      (by decide)
+  simp [normalizeList, normalize, normalizeFields, h1, h2, h7, fofList, fsetAll, fset, pure,
+    Except.pure, bind, Except.bind]
+/-- malformed input is an error: trailing comma, leading zero inside an array, a bare word, an
+    unterminated array, a raw newline inside a string -/
+example : (jsonDecodeDocs js_demoFol 9 ['[', '1', ',', ']']).toOption.isNone = true ∧
+    (jsonDecodeDocs js_demoFol 9 ['[', '0', '1', ']']).toOption.isNone = true ∧
+    (jsonDecodeDocs js_demoFol 9 ['n', 'u', 'l']).toOption.isNone = true ∧
+    (jsonDecodeDocs js_demoFol 9 ['[', '1']).toOption.isNone = true ∧
+    (jsonDecodeDocs js_demoFol 9 ['"', '\n', '"']).toOption.isNone = true := by decide
+/-- concatenated top-level values need no separator (`json.Decoder` semantics) -/
+example : jsonDecodeDocs js_demoFol 9 ['t', 'r', 'u', 'e', '[', ']', '0', '1']
+    = .ok [.bool true, .list [], .jnum "0" "0", .jnum "1" "1"] := rfl
+
+/-- **Fuel is never the reason for a failure.**  The parser is defined by recursion on a fuel
+    argument; the top-level functions supply `2·length + 1` per document (`jsonDecodeDocs`) and
+    `length + 1` for the document loop (`jsonDecodeStream`).  More fuel never changes a result —
+    so an `.error` of `jsonLoadStream` is a syntax (or `normalize`) error, never exhaustion —
+    and a parsed value has consumed at least one character. -/
+theorem C05_json_fuel_adequate (fol : String → String) (cs : List Char) :
+    (∀ fuel, 2 * cs.length < fuel →
+      jsonParseValue fol fuel cs = jsonParseValue fol (2 * cs.length + 1) cs) ∧
+    (∀ fuel, cs.length < fuel →
+      jsonDecodeDocs fol fuel cs = jsonDecodeDocs fol (cs.length + 1) cs) ∧
+    (∀ fuel x r, jsonParseValue fol fuel cs = .ok (x, r) → r.length < cs.length) :=
+  ⟨js_parseValue_fuel fol cs, js_decodeDocs_fuel fol cs,
+    fun fuel x r h => (js_parse_length fol fuel).1 cs x r h⟩
 
 end Bkl
